@@ -63,7 +63,10 @@ def stepLine (st : St) (w : List String) : St × String :=
       | .error (.stale c) => (st, s!"op={op.name} phase={st.1.name} state={st.1.code} stale={c.name} writes=-")
       | .ok st' =>
         let ws := ((spec st.1 op).writes.map (·.1.name))
-        (st', s!"op={op.name} phase={st'.1.name} state={st'.1.code} stale=- writes={if ws.isEmpty then "-" else ",".intercalate ws}")
+        -- tabulate the new state (a chain of closures would be re-evaluated exponentially often)
+        let tbl := allGroups.map fun g => (g, st'.2 g)
+        let frozen : State Group Unit := fun g => (tbl.lookup g).getD none
+        ((st'.1, frozen), s!"op={op.name} phase={st'.1.name} state={st'.1.code} stale=- writes={if ws.isEmpty then "-" else ",".intercalate ws}")
   | _ => (st, "error=bad-line")
 
 def main : IO Unit := Driver.runLoop stepLine initState
